@@ -558,11 +558,21 @@ class _SplineStub:
             return self.real(x)
         _count('watson_spline')
         x = lift(x)
-        name = 'H_%r' % (self.hi,)
+        name = getattr(self, 'name', 'H_%r' % (self.hi,))
         out = _map(lambda e: uf_apply(name, e), x._a)
         for e, a in zip(out.ravel(), x._a.ravel()):
             CTX.fact(z3.And(e.z >= core.zr(float(self.lo)), e.z <= core.zr(float(self.hi))), simple=True)
         return SymArray(out, np.float64)
+
+
+def grid_name(x, y, fill):
+    """name of the spline UF: determined by the interpolation grid and the fill values"""
+    import hashlib
+    h = hashlib.sha1()
+    h.update(np.round(np.asarray(x, dtype=float), 10).tobytes())
+    h.update(np.round(np.asarray(y, dtype=float), 8).tobytes())
+    h.update(repr(tuple(float(v) for v in fill)).encode())
+    return 'H_' + h.hexdigest()[:10]
 
 
 def interp1d(x, y, **kw):
@@ -570,7 +580,9 @@ def interp1d(x, y, **kw):
     r = real(x, y, **kw)
     fv = kw.get('fill_value', (np.nan, np.nan))
     if isinstance(fv, tuple) and len(fv) == 2:
-        return _SplineStub(r, fv[0], fv[1], np.max(x))
+        st = _SplineStub(r, fv[0], fv[1], np.max(x))
+        st.name = grid_name(x, y, fv)
+        return st
     return r
 
 
